@@ -52,7 +52,35 @@ theorem neighbour_ok :
       [{ name := "x", toks := [] }, { name := "y", toks := [tk "4" .num] }, { name := "z", toks := [tk "5" .num] }]).map spell
       = .ok [(.num, "45")] := by decide
 
-/-! ### C09-stringize-backslash-outside-literal -/
+/-! #### how far the region `¬ NoPlacemarkerChain` is from exact
+
+`#define u(x,y,z) a x ## y ## z`.  Inside the region the defect is not only the diagnostic at the start of a replacement
+list: with a token in front, `u(,,3)` silently pastes that token to `3` (`a3` instead of `a 3`).  And the region is not
+tight: `u(,,)` lies in it, yet `subst` gives what the standard gives (`a`), because every remaining operand of the chain
+is empty too and something was emitted before.  A narrower region would have to say "some operand after `p ## q` is
+non-empty, or nothing was emitted before the chain" — the second half depends on how earlier arguments macro-expand,
+so it is not a predicate of replacement list and arguments alone; the region is kept as it is. -/
+
+def uBody : List Tok := tk "a" .ident true :: tBody
+
+theorem chain_with_prefix_pastes_wrongly :
+    ¬ NoPlacemarkerChain uBody [{ name := "x", toks := [] }, { name := "y", toks := [] }, { name := "z", toks := [tk "3" .num] }] ∧
+    (modelSubst Lex.lexOne id uBody
+      [{ name := "x", toks := [] }, { name := "y", toks := [] }, { name := "z", toks := [tk "3" .num] }]).map spell
+      = .ok [(.ident, "a3")] ∧
+    (ChibiVerif.Spec.PPSpec.subst Lex.lexOne id true uBody
+      [{ name := "x", toks := [] }, { name := "y", toks := [] }, { name := "z", toks := [tk "3" .num] }]).map spell
+      = .ok [(.ident, "a"), (.num, "3")] := by decide
+
+theorem region_not_tight :
+    ¬ NoPlacemarkerChain uBody tArgs ∧
+    (modelSubst Lex.lexOne id uBody tArgs).map spell = .ok [(.ident, "a")] ∧
+    (ChibiVerif.Spec.PPSpec.subst Lex.lexOne id true uBody tArgs).map spell = .ok [(.ident, "a")] := by decide
+
+/-! ### C09-stringize-backslash-outside-literal
+
+This region is exact at the `#` operator: `Props.C09.C09_stringize_exact` (the stringized text is the standard's iff every
+token of the argument is literal-safe). -/
 
 /-- replacement list of `#define str(s) # s` -/
 def strBody : List Tok := [tk "#" .punct true, tk "s" .ident true]
